@@ -98,7 +98,9 @@ class World(object):
             sent = "current" if (cur is not None and calls[-1]["ino"] == cur) else "stale"
         live = sum(1 for t in self.files if not t.closed)
         hopen = bool(self.files) and not self.files[-1].closed
-        return {"out": out, "sent": sent, "live": live, "hopen": hopen}
+        # access mode of the handle the library holds now (the last one it opened)
+        m = self.opens[-1][1] if self.opens else "rb"
+        return {"out": out, "sent": sent, "live": live, "hopen": hopen, "hmode": "rw" if ("+" in m or "w" in m) else "ro"}
 
     def cleanup(self):
         try:
@@ -119,7 +121,7 @@ class Boom(Exception):
 
 def run_history(w, detect, rw, acts, how="explicit"):
     """drive one history; returns the events (env actions that do not apply are skipped)"""
-    ev = [{"a": "reset", "detect": detect}]
+    ev = [{"a": "reset", "detect": detect, "mode": "rw" if rw else "ro"}]
     dev = w.fresh_device(detect, rw, how)
     tur = cmds.klass("TestUnitReady")(dev.opcodes.TEST_UNIT_READY)
     closed = False
